@@ -62,6 +62,7 @@ func runScript(u Univ, cfg Config, prof Profile, script []map[string]any, path s
 	}
 	defer t.Close()
 	r := NewRunner(u, cfg, vfs.NewMem(), "db", t)
+	r.Logger = crashLogger{}
 	if err := r.Open(); err != nil {
 		r.fail(err)
 		return t.N, err
@@ -144,7 +145,10 @@ func TestScript(t *testing.T) {
 		for j := 0; j < ncfg && j < len(cfgNames); j++ {
 			cn := cfgNames[(i+j)%len(cfgNames)]
 			path := filepath.Join(out, fmt.Sprintf("S-%s-%05d-%s.ndjson", prof.Name, i, cn))
-			k, ferr := runScript(u, cfgs[cn], prof, script, path)
+			k, _, _, ferr := guardedCrash(path, func() (int, int, map[string]int, error) {
+				k, err := runScript(u, cfgs[cn], prof, script, path)
+				return k, 0, nil, err
+			})
 			total += k
 			n++
 			if ferr != nil {
